@@ -1,4 +1,4 @@
 SPECIFICATION Spec
-CONSTANTS ExtendByCompose = TRUE
+CONSTANTS ExtendByCompose = TRUE Variant = "doc"
 POSTCONDITION Accepted
 CHECK_DEADLOCK FALSE
